@@ -121,6 +121,16 @@ C13_Outcome ==
          [] d.cmd = "wait"   -> S.st = "WAITING" /\ S.cur.fn = d.next /\ ~S.mon.resumed
          [] OTHER -> FALSE          \* a step that returned Continue is never the last one at quiescence
 
+(* ---- C07 / C08: checkpoints -------------------------------------------------------------------- *)
+\* saving what was loaded gives the same bundle (the law Persist/Restore must satisfy; nlog is harness bookkeeping)
+Bundle(b) == [b EXCEPT !.nlog = 0]
+C07_SaveLoadSave == S.snap.has => Bundle(Persist(Restore(S))) = Bundle(S.snap)
+\* with no interference but checkpoints, restores and the resume values: the resumed execution is the uninterrupted one
+OnlyCheckpoints == Alphabet \subseteq {"save", "restore", "resume"}
+C08_StepsPrefix == OnlyCheckpoints => IsPrefixOf(Steps(S), Steps(Ref))
+C08_Equivalent  == (OnlyCheckpoints /\ Terminated(S)) =>
+                      /\ Steps(S) = Steps(Ref) /\ S.outputs = Ref.outputs /\ S.cur = Ref.cur /\ S.fut = Ref.fut
+
 \* hide the histories when only the monitors matter (larger K)
 View == <<[S EXCEPT !.log = <<>>], ready, budget>>
 =============================================================================
